@@ -11,6 +11,7 @@ import SyslModel.Indent.Proto
 import SyslModel.DbScript.Proto
 import SyslModel.Ints.Proto
 import SyslModel.SeqDiag.Proto
+import SyslModel.Relmod.Proto
 
 open Lean (Json)
 open SyslModel
@@ -22,6 +23,7 @@ def dispatch (op : String) (j : Json) : Option Json :=
   else if op.startsWith "db." then DbScript.handle op j
   else if op.startsWith "ints." then Ints.handle op j
   else if op.startsWith "sd." then SeqDiag.handle op j
+  else if op.startsWith "relmod." then Relmod.handle op j
   else none
 
 def handleLine (line : String) : String :=
